@@ -14,6 +14,7 @@ import Drivers.Cavity
 import Drivers.Guards
 import Drivers.Metric
 import Drivers.Par
+import Drivers.Kexact
 
 /-! `refdrv <driver> [args]` : dispatch to a line-protocol driver. One match arm per driver, on one line. -/
 
@@ -33,6 +34,7 @@ def main (args : List String) : IO UInt32 := do
   | "guards" :: rest => Drivers.Guards.run rest
   | "metric" :: rest => Drivers.Metric.run rest
   | "par" :: rest => Drivers.Par.run rest
+  | "kexact" :: rest => Drivers.Kexact.run rest
   | _ =>
     IO.eprintln s!"refdrv: unknown driver {args}"
     return 2
